@@ -582,4 +582,11 @@ def run(prog, ctx):
                        "formula (evaluated on %d grid points), estimator pairing, replay loops, 4-bit encoding agreement, probe geometry, "
                        "dispatch completeness" % (len(reach), 18 * 12))
     res.not_decided = "equality of the register array with the textbook model for all streams; type-independence of estimates as values"
+    # ---------------- C02.B fixed-size coupon tables keep the length their lg size announces (also when rebuilt from an image)
+    n_b = 0
+    for (f_, v, cap, bound, span) in C.pushed_fixed_tables(prog, [g for g in prog.fns.values() if g.id.startswith("hll::")]):
+        n_b += 1
+        res.tri(v, "C02.B", "C02.B|%s" % f_.id, "%s freezes a vector made with capacity `%s` after pushing `%s` entries: the table is as long as what was stored, "
+                "not as its size field says -- the free slots are gone and the next coupon offered to it is dropped" % (f_.id, show(cap)[:40], show(bound)[:40] if bound else "?"), f_.id, span)
+    res.rule("C02.B", n_b, 0, "tables frozen with into_boxed_slice after being filled by push")
     return res
